@@ -359,20 +359,22 @@ def write_scsv_header(stream, schema, comments=None):
     stream.write("schema:" + os.linesep)
     delimiter = schema["delimiter"]
     missing = schema["missing"]
-    stream.write(f"  delimiter: '{delimiter}'{os.linesep}")
-    stream.write(f"  missing: '{missing}'{os.linesep}")
+    stream.write(f"  delimiter: {_yaml_quote(delimiter)}{os.linesep}")
+    stream.write(f"  missing: {_yaml_quote(missing)}{os.linesep}")
     stream.write("  fields:" + os.linesep)
 
     for field in schema["fields"]:
         name = field["name"]
         kind = field.get("type", _SCSV_DEFAULT_TYPE)
-        stream.write(f"    - name: {name}{os.linesep}")
+        stream.write(f"    - name: {_yaml_quote(name)}{os.linesep}")
         stream.write(f"      type: {kind}{os.linesep}")
         if "unit" in field:
             unit = field["unit"]
             stream.write(f"      unit: {unit}{os.linesep}")
         if "fill" in field:
             fill = field["fill"]
+            if isinstance(fill, str):  # Keep YAML from re-typing '', '010', 'yes', ...
+                fill = _yaml_quote(fill)
             stream.write(f"      fill: {fill}{os.linesep}")
     stream.write("---" + os.linesep)
 
@@ -742,6 +744,11 @@ def _validate_scsv_schema(schema):
             _log.error("SCSV field of type '%s' requires a fill value", field["type"])
             return False
     return True
+
+
+def _yaml_quote(s):
+    """Return `s` as a single-quoted YAML scalar (always loaded back as a string)."""
+    return "'" + str(s).replace("'", "''") + "'"
 
 
 def _parse_scsv_bool(x):
